@@ -2,7 +2,7 @@ from vfeng import Unit, Harness
 PROPERTY = 'C19'
 def units(tier):
     u = Unit('names', 'wrap.cc', 'harness.c', externs=['vf_on_name', '_ZN2mp8internal10NameReader4ReadIN8internal11NameHandlerEEEvN3fmt15BasicCStringRefIcEERT_', '_ZN3fmt14BasicFormatterIcNS_12ArgFormatterIcEEE6formatENS_15BasicCStringRefIcEE'],
-             extra_repo_cc=['src/format.cc', 'src/os.cc', 'src/posix.cc', 'src/expr-info.cc'])
+             extra_repo_cc=['src/format.cc', 'src/os.cc', 'src/posix.cc', 'src/expr-info.cc'], ll2c_args=['--inline-mem', '1024'])
     u.stub_undefined = True
     return [u]
 def harnesses(tier):
@@ -20,6 +20,10 @@ def harnesses(tier):
         h = Harness('h_name_lookup', 'names', unwind=12, timeout=3600, mem_gb=44, bounds='file <= 8 bytes, any line, state constructed directly', assumptions=A + ['NameProvider state (names_) constructed directly as ReadNames leaves it: line starts plus end marker'],
                     defines=['MAXLEN=8'] + place, claims='NameProvider::name(i) returns line i without its line end, reading only inside the mapped file', known=['empty_first_line'], tv_cases=2000 if not place else 0, flags=['--object-bits', '10'])
         h.label = 'h_name_lookup[%s]' % ('end' if place else 'start'); hs.append(h)
+    for (ln, mask, idx) in [] if tier == 'quick' else [(3, 0b100, 0), (4, 0b1010, 1), (5, 0b10100, 0), (5, 0b10100, 1), (5, 0b10001, 1), (6, 0b100100, 1)]:
+        h = Harness('h_name_lookup_enum', 'names', unwind=12, unwindset=['w_np_make_img.0:900'], timeout=300, mem_gb=16, bounds='file of %d bytes, newlines at mask %s, line %d requested; all other bytes symbolic (incl. \\r)' % (ln, bin(mask), idx), assumptions=A[:1] + ['NameProvider object image holding names_ as ReadNames leaves it; line structure enumerated'],
+                    defines=['MAXLEN=8', 'ELEN=%d' % ln, 'EMASK=%d' % mask, 'EIDX=%d' % idx], claims='NameProvider::name(i) returns line i without its line end (one trailing \\r before the \\n removed, nothing else), reading only inside the mapped file', tv_cases=0, flags=['--object-bits', '10'])
+        h.label = 'h_name_lookup_enum[len%d,%s,i%d]' % (ln, format(mask, 'b'), idx); hs.append(h)
     if tier == 'quick': return hs      # the whole NameProvider pipeline (h_names) needs > 10 min: thorough tier only
     for place in ([], ['PLACE_END']):
         h = Harness('h_names', 'names', unwind=L + 4, timeout=600 if tier == 'quick' else 3600, mem_gb=40, bounds='file <= %d bytes' % L, assumptions=A, defines=['MAXLEN=%d' % L] + place,
